@@ -464,6 +464,123 @@ impl Diagram {
         res
     }
 
+    /// Reidemeister III at the PD level: for every triangular face whose three crossings are
+    /// distinct and whose three strands are linearly ordered by height (one strand over both others,
+    /// one under both), slide: along each of the three strands the two triangle crossings are
+    /// visited in the opposite order.  Kept iff the re-gluing is consistent, well formed and planar.
+    /// All orientations of the three strands occur (braid-like and non-braid-like R3).
+    pub fn r3_moves(&self) -> Vec<Diagram> {
+        let m = 4 * self.n;
+        let next = |d: usize| {
+            let p = self.partner[d];
+            (p / 4) * 4 + (p % 4 + 1) % 4
+        };
+        let mut res = vec![];
+        let mut seen_face = vec![false; m];
+        for d0 in 0..m {
+            if seen_face[d0] {
+                continue;
+            }
+            // collect the face orbit
+            let mut face = vec![d0];
+            let mut d = next(d0);
+            while d != d0 {
+                face.push(d);
+                d = next(d);
+            }
+            for &x in &face {
+                seen_face[x] = true;
+            }
+            if face.len() != 3 {
+                continue;
+            }
+            let cr: Vec<usize> = face.iter().map(|x| x / 4).collect();
+            if cr[0] == cr[1] || cr[1] == cr[2] || cr[0] == cr[2] {
+                continue;
+            }
+            // sides: edge {face[k], partner(face[k])}; oriented from its out dart to its in dart
+            let mut strands = vec![]; // (p_in, p_out, q_in, q_out)
+            for &x in &face {
+                let y = self.partner[x];
+                let (o, i) = if self.is_out(x) { (x, y) } else { (y, x) };
+                let p_in = (o / 4) * 4 + (o % 4 + 2) % 4;
+                let q_out = (i / 4) * 4 + (i % 4 + 2) % 4;
+                strands.push((p_in, o, i, q_out));
+            }
+            // heights: a strand is "over" at a crossing iff it uses slots 1/3 there
+            let over = |dart: usize| dart % 2 == 1;
+            let levels: Vec<(bool, bool)> = strands.iter().map(|s| (over(s.1), over(s.2))).collect();
+            let tops = levels.iter().filter(|l| l.0 && l.1).count();
+            let bottoms = levels.iter().filter(|l| !l.0 && !l.1).count();
+            if tops != 1 || bottoms != 1 {
+                continue;
+            }
+            // every component is a cyclic sequence of passages (in dart, out dart); the move swaps,
+            // for each of the three strands, the two consecutive passages through the triangle
+            // crossings; the edges are then re-glued along the new sequences
+            let mut comps: Vec<Vec<(usize, usize)>> = vec![];
+            {
+                let mut seen = vec![false; m];
+                for &o0 in &self.out_darts() {
+                    if seen[o0] {
+                        continue;
+                    }
+                    let mut comp = vec![];
+                    let mut o = o0;
+                    loop {
+                        seen[o] = true;
+                        let i = self.partner[o];
+                        let o2 = (i / 4) * 4 + (i % 4 + 2) % 4;
+                        comp.push((i, o2));
+                        o = o2;
+                        if o == o0 {
+                            break;
+                        }
+                    }
+                    comps.push(comp);
+                }
+            }
+            let mut ok = true;
+            for &(_p_in, p_out, q_in, _q_out) in &strands {
+                // find the passage with out dart p_out; the next one must have in dart q_in
+                let mut done = false;
+                for comp in comps.iter_mut() {
+                    let l = comp.len();
+                    if let Some(k) = comp.iter().position(|x| x.1 == p_out) {
+                        let k2 = (k + 1) % l;
+                        if comp[k2].0 != q_in || l < 2 {
+                            ok = false;
+                        } else {
+                            comp.swap(k, k2);
+                        }
+                        done = true;
+                        break;
+                    }
+                }
+                if !done {
+                    ok = false;
+                }
+            }
+            if !ok {
+                continue;
+            }
+            let mut np = vec![usize::MAX; m];
+            for comp in &comps {
+                let l = comp.len();
+                for k in 0..l {
+                    let (out, inn) = (comp[k].1, comp[(k + 1) % l].0);
+                    np[out] = inn;
+                    np[inn] = out;
+                }
+            }
+            let d2 = Diagram { n: self.n, dir: self.dir.clone(), partner: np };
+            if d2.well_formed() && d2.is_planar() && d2 != *self {
+                res.push(d2);
+            }
+        }
+        res
+    }
+
     // ---- Kauffman state sum ------------------------------------------------------------------------
 
     /// unnormalised Jones polynomial in q (exponent -> coefficient):
@@ -921,6 +1038,43 @@ mod move_tests {
     use super::*;
 
     #[test]
+    fn pd_level_r3_moves_are_isotopies() {
+        let mut total = 0;
+        let mut non_braidlike = 0;
+        for n in 3..=4usize {
+            for (k, d) in all_planar_diagrams(n).into_iter().enumerate() {
+                if n == 4 && k % 7 != 0 {
+                    continue;
+                }
+                let moves = d.r3_moves();
+                if moves.is_empty() {
+                    continue;
+                }
+                let j = d.jones();
+                let kh = khovanov::<Z>(&d, &z(0), &z(0), None).bigraded.unwrap();
+                for d2 in moves {
+                    total += 1;
+                    assert_eq!(d2.components().len(), d.components().len());
+                    assert_eq!(d2.jones(), j, "R3 changed the state sum of {:?} -> {:?}", d.pd(), d2.pd());
+                    let k2 = khovanov::<Z>(&d2, &z(0), &z(0), None).bigraded.unwrap();
+                    assert_eq!(kh.keys().collect::<Vec<_>>(), k2.keys().collect::<Vec<_>>(), "{:?} -> {:?}", d.pd(), d2.pd());
+                    for (key, m) in &kh {
+                        assert!(k2[key].same(m.rank, &m.tors));
+                    }
+                    // the inverse move exists
+                    assert!(d2.r3_moves().contains(&d), "R3 is not invertible on {:?}", d.pd());
+                    let signs: Vec<i64> = (0..d.n).map(|c| d.sign(c)).collect();
+                    if signs.iter().any(|s| *s > 0) && signs.iter().any(|s| *s < 0) {
+                        non_braidlike += 1;
+                    }
+                }
+            }
+        }
+        assert!(total > 100, "only {total} R3 moves generated");
+        assert!(non_braidlike > 0);
+    }
+
+    #[test]
     fn pd_level_r2_moves_are_isotopies() {
         let mut total = 0;
         let mut antiparallel_seen = false;
@@ -1123,3 +1277,4 @@ pub fn khovanov_involutive(d: &Diagram, tau_edge: &[usize], h: &Fp<2>, t: &Fp<2>
     }
     Some(homology_of_complex(&degs, &gens, &dmat, h.is_zero() && t.is_zero()))
 }
+
